@@ -321,3 +321,25 @@ func CondQueue(n int) int {
 	<-done
 	return total
 }
+
+// ---- shadowed range variables over maps and channels --------------------------
+
+func Shadow() string {
+	m := map[string][]int{"a": {3, 1, 2}, "b": {9, 8}}
+	total := 0
+	for k, v := range m {
+		k, v := k, v
+		v = append([]int{}, v...)
+		sort.Ints(v)
+		total += len(k) + v[0]
+	}
+	ch := make(chan int, 3)
+	ch <- 4
+	ch <- 5
+	close(ch)
+	for x := range ch {
+		x := x * 2
+		total += x
+	}
+	return fmt.Sprint(total)
+}
